@@ -94,38 +94,49 @@ func genCase(t *rapid.T) Case {
 }
 
 // genSeq: 2-5 responses of one provider, 0-2 long-lived error values some error steps share, some steps with a
-// ResponseWriter that breaks after Accept bytes.
+// ResponseWriter that breaks after Accept bytes. Steps and error values are drawn as slices of self-contained
+// elements so that the shrinker can drop the ones a violation does not need.
 func genSeq(t *rapid.T) Case {
 	c := Case{Via: "seq"}
 	c.Router = rapid.SampledFrom([]string{"provider", "legacy"}).Draw(t, "router")
-	nerr := rapid.IntRange(0, 2).Draw(t, "nshared")
-	for i := 0; i < nerr; i++ {
-		sp := ErrSpec{Kind: rapid.SampledFrom(append([]string{"json", "plain"}, errCodes...)).Draw(t, "sharedkind")}
-		if sp.Kind == "json" {
-			sp.Code = genValue(t, "sharedcode")
-		}
-		if rapid.IntRange(0, 7).Draw(t, "sharednodesc") > 0 || sp.Kind == "plain" {
-			sp.Desc = genValue(t, "shareddesc")
-		}
-		sp.Wrapped = rapid.IntRange(0, 3).Draw(t, "sharedwrapped") == 0
-		c.SharedErrs = append(c.SharedErrs, sp)
-	}
-	n := rapid.IntRange(2, 5).Draw(t, "nsteps")
-	for i := 0; i < n; i++ {
-		s := genSingle(t, stepVias)
+	c.SharedErrs = rapid.SliceOfN(rapid.Custom(genErrSpec), 0, 2).Draw(t, "shared")
+	c.Steps = rapid.SliceOfN(rapid.Custom(genStep), 2, 5).Draw(t, "steps")
+	for i := range c.Steps {
+		s := &c.Steps[i]
 		s.Router = c.Router
-		if s.Resp == "error" && nerr > 0 && rapid.IntRange(0, 2).Draw(t, "useshared") > 0 {
-			s.ErrRef = rapid.IntRange(1, nerr).Draw(t, "errref")
+		if s.ErrRef > len(c.SharedErrs) {
+			s.ErrRef = 0
+		}
+		if s.ErrRef > 0 {
 			sp := c.SharedErrs[s.ErrRef-1]
 			s.ErrKind, s.ErrCode, s.ErrDesc = sp.Kind, sp.Code, sp.Desc
 		}
-		if (s.Via == "form" || s.Via == "http" || s.Via == "autherror") && rapid.IntRange(0, 2).Draw(t, "broken") == 0 {
-			s.BrokenWriter = true
-			s.Accept = rapid.IntRange(0, 700).Draw(t, "accept")
-		}
-		c.Steps = append(c.Steps, s)
 	}
 	return c
+}
+
+func genErrSpec(t *rapid.T) ErrSpec {
+	sp := ErrSpec{Kind: rapid.SampledFrom(append([]string{"json", "plain"}, errCodes...)).Draw(t, "sharedkind")}
+	if sp.Kind == "json" {
+		sp.Code = genValue(t, "sharedcode")
+	}
+	if rapid.IntRange(0, 7).Draw(t, "sharednodesc") > 0 || sp.Kind == "plain" {
+		sp.Desc = genValue(t, "shareddesc")
+	}
+	sp.Wrapped = rapid.IntRange(0, 3).Draw(t, "sharedwrapped") == 0
+	return sp
+}
+
+func genStep(t *rapid.T) Case {
+	s := genSingle(t, stepVias)
+	if s.Resp == "error" && rapid.IntRange(0, 2).Draw(t, "useshared") > 0 {
+		s.ErrRef = rapid.IntRange(1, 2).Draw(t, "errref")
+	}
+	if (s.Via == "form" || s.Via == "http" || s.Via == "autherror") && rapid.IntRange(0, 2).Draw(t, "broken") == 0 {
+		s.BrokenWriter = true
+		s.Accept = rapid.IntRange(0, 700).Draw(t, "accept")
+	}
+	return s
 }
 
 func genSingle(t *rapid.T, vias []string) Case {
